@@ -64,3 +64,5 @@ META = dict(
                 "arguments / forged fields). Not covered: see 'left out' in the harness report (OOM paths, Windows-only code)."),
     technique="runtime monitoring: shadow-model oracle after every call + snapshot-on-failure + canaries + release-time inspection + ASan/UBSan",
 )
+
+CFG["rule"] += (" " + 'Additions: every 512th case runs real dynamic / secure / self appends on buffers of 8-40 MiB; every 16th case evaluates the precision the AWS_BYTE_*_PRI macros hand to printf for forged lengths and prints a fenced cursor; a third of write_from_whole_cursor calls go through the aws_string entry point; stale aws_last_error()/errno values are left between operations; stage asan_latin1 repeats cases under a single-byte libc locale.')
